@@ -867,7 +867,7 @@ class FedSim(object):
         out = []
         for inv in self.world.tool.invocations[n0:]:
             out.append({k: inv.get(k) for k in ("op", "ord", "node_id", "key", "healthy_ok",
-                                                "genuine_ok", "fault", "handover") if inv.get(k) is not None})
+                                                "genuine_ok", "fault", "handover", "covers") if inv.get(k) is not None})
         return out
 
     # ------------------------------------------------------------------ events: response delivery
